@@ -10,7 +10,7 @@ enum K { NUMCHIPS, EMU, PCMRATE, DEVID, LFOEN, LFOFREQ, CHIPTYPE, VOLMODEL, ALLO
          HOOK_RAW, HOOK_NOTE, HOOK_DEBUG, HOOK_LS, HOOK_LE, RESET, BANK, MUSIC, TRACKOPT, CHANEN, SYSEX_DEV, GETBANK_BAD, PLAYPROBE };
 struct Op { K k; long a; long b; std::string name; };
 
-static std::vector<uint8_t> g_bankA, g_bankB, g_badbank, g_song, g_badsong, g_trunc, g_cmf, g_imf;
+static std::vector<uint8_t> g_bankA, g_bankB, g_badbank, g_song, g_badsong, g_trunc, g_cmf, g_imf, g_rsxx;
 static int g_hook_calls[5];
 static void h_raw(void *, OPN2_UInt8, OPN2_UInt8, OPN2_UInt8, const OPN2_UInt8 *, size_t) { g_hook_calls[0]++; }
 static void h_note(void *, int, int, int, int, double) { g_hook_calls[1]++; }
@@ -25,11 +25,11 @@ struct Ref {
     int alloc = -1; bool scalemod = false, frbright = false, softpan = false, arp = false;
     bool loopEn = false; int loopCnt = -1; int hooksOnly = 0; double tempo = 1.0;
     bool hook[5] = {false, false, false, false, false};
-    bool bank_loaded = false; bool song = false; bool song_dc = false; int tracks = 0;
+    bool bank_loaded = false; bool song = false; bool song_dc = false; int tracks = 0; bool rsxx = false;   // rsxx: the loaded song is an EA-MUS file (it forces 2 chips and the Generic volume model while it is loaded)
     std::vector<int> trackOff; bool chanOff[16] = {0}; long solo = -1;
     void ser(vu::Ser &s) const { s.raw(&numChips, sizeof numChips); s.u32((uint32_t)emulator); s.u8(pcmrate); s.u32((uint32_t)devid); s.u32((uint32_t)lfoEnUser); s.u32((uint32_t)lfoFreqUser); s.u32((uint32_t)chipTypeUser); s.u32((uint32_t)volModelUser);
         s.u32((uint32_t)bankLfoEn); s.u32((uint32_t)bankLfoFreq); s.u32((uint32_t)bankChip); s.u32((uint32_t)alloc); s.u8(scalemod); s.u8(frbright); s.u8(softpan); s.u8(arp); s.u8(loopEn); s.u32((uint32_t)loopCnt); s.u32((uint32_t)hooksOnly); s.f64(tempo);
-        for(int i = 0; i < 5; i++) s.u8(hook[i]); s.u8(bank_loaded); s.u8(song); s.u8(song_dc); for(int x : trackOff) s.u8((uint8_t)x); for(int i = 0; i < 16; i++) s.u8(chanOff[i]); s.i64(solo); }
+        for(int i = 0; i < 5; i++) s.u8(hook[i]); s.u8(bank_loaded); s.u8(song); s.u8(song_dc); s.u8(rsxx); for(int x : trackOff) s.u8((uint8_t)x); for(int i = 0; i < 16; i++) s.u8(chanOff[i]); s.i64(solo); }
 };
 struct Inst { pl::Instance in; Ref r; };
 
@@ -63,7 +63,7 @@ struct C18Model : mcx::Model {
         add(HOOK_RAW, 1, 0, "setRawEventHook(fn)"); add(HOOK_RAW, 0, 0, "setRawEventHook(NULL)"); add(HOOK_NOTE, 1, 0, "setNoteHook(fn)"); add(HOOK_DEBUG, 1, 0, "setDebugMessageHook(fn)"); add(HOOK_LS, 1, 0, "setLoopStartHook(fn)"); add(HOOK_LE, 1, 0, "setLoopEndHook(fn)"); add(HOOK_LE, 0, 0, "setLoopEndHook(NULL)");
         add(RESET, 0, 0, "reset()");
         add(BANK, 0, 0, "openBankData(A)"); add(BANK, 1, 0, "openBankData(B: lfo on/3, OPNA)"); add(BANK, 2, 0, "openBankData(garbage)"); add(BANK, 3, 0, "openBankData(truncated)"); add(BANK, 4, 0, "openBankData(empty)");
-        add(MUSIC, 0, 0, "openData(song)"); add(MUSIC, 1, 0, "openData(garbage)"); add(MUSIC, 2, 0, "openData(truncated song)"); add(MUSIC, 3, 0, "openData(division 0)"); add(MUSIC, 4, 0, "openData(well-formed CMF: parsed, then refused)"); add(MUSIC, 5, 0, "openData(well-formed IMF: parsed, then refused)");
+        add(MUSIC, 0, 0, "openData(song)"); add(MUSIC, 1, 0, "openData(garbage)"); add(MUSIC, 2, 0, "openData(truncated song)"); add(MUSIC, 3, 0, "openData(division 0)"); add(MUSIC, 4, 0, "openData(well-formed CMF: parsed, then refused)"); add(MUSIC, 5, 0, "openData(well-formed IMF: parsed, then refused)"); add(MUSIC, 6, 0, "openData(EA-MUS song: forces 2 chips while loaded)");
         add(TRACKOPT, 0, OPNMIDI_TrackOption_Off, "setTrackOptions(0,Off)"); add(TRACKOPT, 1, OPNMIDI_TrackOption_Solo, "setTrackOptions(1,Solo)"); add(TRACKOPT, 2, OPNMIDI_TrackOption_Off, "setTrackOptions(2,Off)"); add(TRACKOPT, -1, OPNMIDI_TrackOption_Off, "setTrackOptions(SIZE_MAX,Off)"); add(TRACKOPT, 0, 4, "setTrackOptions(0,On|4)");
         add(CHANEN, 3, 0, "setChannelEnabled(3,0)"); add(CHANEN, 3, 1, "setChannelEnabled(3,1)"); add(CHANEN, 16, 0, "setChannelEnabled(16,0)"); add(CHANEN, -1, 0, "setChannelEnabled(SIZE_MAX,0)");
         add(SYSEX_DEV, 0, 0, "sysex master volume -> device 0"); add(SYSEX_DEV, 5, 0, "sysex master volume -> device 5");
@@ -86,16 +86,22 @@ struct C18Model : mcx::Model {
     void check_getters(Inst &I, mcx::Verdict &v, const std::string &opk) {
         OPN2_MIDIPlayer *d = I.in.dev; Ref &R = I.r; OPNMIDIplay &p = *I.in.play(); OPN2 &y = *p.m_synth; MidiSequencer &q = *p.m_sequencer; char b[300];
 #define EXPECT(cond, what, ...) if(!(cond)) { snprintf(b, sizeof b, __VA_ARGS__); v.fail("C18/setting-lost/" + std::string(what) + "/after-" + opk, b); return; }
+        // an EA-MUS song forces its own chip count, volume model and keeps the chips as they are while it is loaded; the *requested* values (getters of the setup) stay, and everything is in force again once another song or a bank is loaded
+        const bool locked = y.setupLocked();
+        EXPECT(!locked || R.rsxx, "setupLocked", "the setup is locked (music mode %d) although no EA-MUS song is loaded", (int)y.m_musicMode);
         EXPECT(opn2_getNumChips(d) == R.numChips, "numChips", "opn2_getNumChips = %d, last accepted value %d", opn2_getNumChips(d), R.numChips);
+        if(locked) { EXPECT((int)I.in.tap.chips.size() == opn2_getNumChipsObtained(d), "numChipsObtained", "%zu chips running, opn2_getNumChipsObtained = %d", I.in.tap.chips.size(), opn2_getNumChipsObtained(d)); }
+        else {
         EXPECT(opn2_getNumChipsObtained(d) == R.numChips, "numChipsObtained", "opn2_getNumChipsObtained = %d, last accepted value %d", opn2_getNumChipsObtained(d), R.numChips);
-        EXPECT((int)I.in.tap.chips.size() == R.numChips, "numChips", "%zu chips running, last accepted value %d", I.in.tap.chips.size(), R.numChips);
+        EXPECT((int)I.in.tap.chips.size() == R.numChips, "numChips", "%zu chips running, last accepted value %d", I.in.tap.chips.size(), R.numChips); }
         EXPECT(I.in.tap.emulator == R.emulator && p.m_setup.emulator == R.emulator, "emulator", "running emulator %d (setup %d), last accepted %d", I.in.tap.emulator, p.m_setup.emulator, R.emulator);
-        EXPECT(!y.m_chips.empty() && y.m_chips[0]->isRunningAtPcmRate() == R.pcmrate, "runAtPcmRate", "chip runs at PCM rate: %d, setting %d", (int)y.m_chips[0]->isRunningAtPcmRate(), (int)R.pcmrate);
+        EXPECT(p.m_setup.runAtPcmRate == (int)R.pcmrate, "runAtPcmRate", "requested run-at-PCM-rate %d, setting %d", (int)p.m_setup.runAtPcmRate, (int)R.pcmrate);
+        if(!locked) EXPECT(!y.m_chips.empty() && y.m_chips[0]->isRunningAtPcmRate() == R.pcmrate, "runAtPcmRate", "chip runs at PCM rate: %d, setting %d", (int)y.m_chips[0]->isRunningAtPcmRate(), (int)R.pcmrate);
         int lfoEn = R.lfoEnUser < 0 ? R.bankLfoEn : R.lfoEnUser; int lfoFreq = R.lfoFreqUser < 0 ? R.bankLfoFreq : R.lfoFreqUser; int chip = R.chipTypeUser < 0 ? R.bankChip : R.chipTypeUser;
         EXPECT(opn2_getLfoEnabled(d) == lfoEn, "lfoEnabled", "opn2_getLfoEnabled = %d, expected %d (user %d, bank %d)", opn2_getLfoEnabled(d), lfoEn, R.lfoEnUser, R.bankLfoEn);
         EXPECT(opn2_getLfoFrequency(d) == lfoFreq, "lfoFrequency", "opn2_getLfoFrequency = %d, expected %d (user %d, bank %d)", opn2_getLfoFrequency(d), lfoFreq, R.lfoFreqUser, R.bankLfoFreq);
         EXPECT(opn2_getChipType(d) == chip, "chipType", "opn2_getChipType = %d, expected %d (user %d, bank %d)", opn2_getChipType(d), chip, R.chipTypeUser, R.bankChip);
-        if(R.volModelUser != -100) { int vm = R.volModelUser == 0 ? OPNMIDI_VolumeModel_Generic : R.volModelUser; EXPECT(opn2_getVolumeRangeModel(d) == vm, "volumeModel", "opn2_getVolumeRangeModel = %d, expected %d", opn2_getVolumeRangeModel(d), vm); }
+        if(R.volModelUser != -100 && !locked) { int vm = R.volModelUser == 0 ? OPNMIDI_VolumeModel_Generic : R.volModelUser; EXPECT(opn2_getVolumeRangeModel(d) == vm, "volumeModel", "opn2_getVolumeRangeModel = %d, expected %d", opn2_getVolumeRangeModel(d), vm); }
         EXPECT(opn2_getChannelAllocMode(d) == R.alloc, "channelAllocMode", "opn2_getChannelAllocMode = %d, expected %d", opn2_getChannelAllocMode(d), R.alloc);
         EXPECT(opn2_getAutoArpeggio(d) == (int)R.arp, "autoArpeggio", "opn2_getAutoArpeggio = %d, expected %d", opn2_getAutoArpeggio(d), (int)R.arp);
         EXPECT(y.m_scaleModulators == R.scalemod, "scaleModulators", "scale modulators in force: %d, setting %d", (int)y.m_scaleModulators, (int)R.scalemod);
@@ -156,16 +162,16 @@ struct C18Model : mcx::Model {
         case RESET: opn2_reset(d); break;
         case BANK: { const std::vector<uint8_t> &b = o.a == 0 ? g_bankA : o.a == 1 ? g_bankB : o.a == 2 ? g_badbank : o.a == 3 ? g_trunc : g_badbank; long n = o.a == 4 ? 0 : (long)b.size();
             int rc = opn2_openBankData(d, b.data(), n);
-            if(o.a <= 1) { must_ok(rc); R.bank_loaded = true; R.bankLfoEn = o.a == 1; R.bankLfoFreq = o.a == 1 ? 3 : 0; R.bankChip = o.a == 1 ? 1 : 0; R.lfoEnUser = R.lfoFreqUser = R.chipTypeUser = -1; R.volModelUser = 0; }
+            if(o.a <= 1) { must_ok(rc); R.bank_loaded = true; R.bankLfoEn = o.a == 1; R.bankLfoFreq = o.a == 1 ? 3 : 0; R.bankChip = o.a == 1 ? 1 : 0; R.lfoEnUser = R.lfoFreqUser = R.chipTypeUser = -1; R.volModelUser = 0; R.rsxx = false; }
             else { must_fail(rc, "malformed bank"); expect_error_text = true; }
             break; }
         case MUSIC: { const std::vector<uint8_t> &b = o.a == 0 ? g_song : o.a == 1 ? g_badsong : o.a == 2 ? g_trunc : g_badsong; std::vector<uint8_t> z; if(o.a == 3) { z = g_song; z[12] = 0; z[13] = 0; }
-            const std::vector<uint8_t> &use = o.a == 4 ? g_cmf : o.a == 5 ? g_imf : o.a == 3 ? z : (o.a == 2 ? g_song : b); unsigned long n = o.a == 2 ? (unsigned long)(g_song.size() - 7) : (unsigned long)use.size();
+            const std::vector<uint8_t> &use = o.a == 6 ? g_rsxx : o.a == 4 ? g_cmf : o.a == 5 ? g_imf : o.a == 3 ? z : (o.a == 2 ? g_song : b); unsigned long n = o.a == 2 ? (unsigned long)(g_song.size() - 7) : (unsigned long)use.size();
             int rc = opn2_openData(d, use.data(), n);
-            if(o.a == 0 && R.bank_loaded) { must_ok(rc); R.song = true; R.song_dc = false; R.tracks = 3; R.trackOff.assign(3, 0); for(int c = 0; c < 16; c++) R.chanOff[c] = false; R.solo = -1; }
+            if((o.a == 0 || o.a == 6) && R.bank_loaded) { must_ok(rc); R.song = true; R.song_dc = false; R.rsxx = o.a == 6; R.tracks = o.a == 6 ? 1 : 3; R.trackOff.assign((size_t)R.tracks, 0); for(int c = 0; c < 16; c++) R.chanOff[c] = false; R.solo = -1; }
             else { if(rc >= 0) v.fail("C18/invalid-accepted/openData", "a malformed music file (or a file without a bank) was accepted"); expect_error_text = true; failed_call = true;
                 // a rejected file may have replaced the previously loaded song (the statement asks for intact settings and the ability to load a valid file next)
-                if(R.bank_loaded) { failed_call = false; R.song = false; R.song_dc = true; } }
+                if(R.bank_loaded) { failed_call = false; R.song = false; R.song_dc = true; R.rsxx = false; } }
             break; }
         case TRACKOPT: { size_t t = o.a < 0 ? (size_t)-1 : (size_t)o.a; int rc = opn2_setTrackOptions(d, t, (unsigned)o.b); bool valid = R.song && o.a >= 0 && o.a < R.tracks && (o.b & ~3u) == 0;
             if(R.song_dc) break;   // whether the previous song survived a rejected file is not specified
@@ -209,7 +215,7 @@ int main(int argc, char **argv) {
     pl::install_hooks(true);
     { pl::BankSpec m; pl::InsSpec s; s.id = 1; for(int i = 0; i < 128; i++) m.ins[i] = s; pl::BankSpec p; p.percussive = true; pl::InsSpec dd; dd.id = 2; dd.drum_key = 40; for(int i = 27; i < 88; i++) p.ins[i] = dd;
       g_bankA = pl::make_wopn({m, p}, 0, 0, 0); g_bankB = pl::make_wopn({m, p}, 0x0B, 0, 1); g_badbank.assign(64, 'X'); g_trunc.assign(g_bankA.begin(), g_bankA.begin() + 100); }
-    { gm::Track t0, t1, t2; t0.tempo(0, 500000).ev(0, {0x90, 60, 100}).ev(96, {0x80, 60, 0}).eot(0); t1.ev(10, {0x93, 62, 100}).ev(50, {0x83, 62, 0}).eot(0); t2.ev(20, {0x99, 40, 100}).ev(5, {0x89, 40, 0}).eot(0); g_song = gm::smf(1, 96, {t0.d, t1.d, t2.d}); g_badsong.assign(40, 'Q'); g_cmf = gm::seed_cmf(); g_imf = gm::imf(12); }
+    { gm::Track t0, t1, t2; t0.tempo(0, 500000).ev(0, {0x90, 60, 100}).ev(96, {0x80, 60, 0}).eot(0); t1.ev(10, {0x93, 62, 100}).ev(50, {0x83, 62, 0}).eot(0); t2.ev(20, {0x99, 40, 100}).ev(5, {0x89, 40, 0}).eot(0); g_song = gm::smf(1, 96, {t0.d, t1.d, t2.d}); g_badsong.assign(40, 'Q'); g_cmf = gm::seed_cmf(); g_imf = gm::imf(12); g_rsxx = gm::seed_rsxx(); }
     C18Model m; m.build();
     return mcx::run_main(argc, argv, m, "C18", 2, 3);
 }
